@@ -1,0 +1,29 @@
+//go:build verif
+// +build verif
+
+// Verification-only export (build tag "verif").  No logic here: read-only
+// accessors for the dedup cache and the configured limit of the mempool
+// (used by the C19 check to canonicalise states).
+
+package mempool
+
+// VerifCacheKeys returns a copy of the keys of the dedup cache's lookup map.
+func (mem *Mempool) VerifCacheKeys() []string {
+	mem.cache.mtx.Lock()
+	defer mem.cache.mtx.Unlock()
+	out := make([]string, 0, len(mem.cache.checkMap))
+	for k := range mem.cache.checkMap {
+		out = append(out, k)
+	}
+	return out
+}
+
+// VerifCacheListLen returns the length of the cache's eviction list.
+func (mem *Mempool) VerifCacheListLen() int {
+	mem.cache.mtx.Lock()
+	defer mem.cache.mtx.Unlock()
+	return mem.cache.list.Len()
+}
+
+// VerifTxLimit returns the configured limit (block_size*2).
+func (mem *Mempool) VerifTxLimit() int { return mem.txLimit }
